@@ -296,29 +296,30 @@ theorem invKill_initAttached (p : Prog) (k n : Nat) : InvKill (core (initAttache
 /-- every process the debugger has launched (in any generation) is dead and collected -/
 def NoChildLeft (s : St) : Prop := ∀ q ∈ s.old ++ [s.proc], q.child = true → q.alive = false ∧ q.reaped = true
 
-/-- what `Drop` does to the process table: the current process is killed and collected, or left as it is
-because the debugger had detached, or it is an attached one, or it has already ended -/
+/-- what `Drop` does to the process table: the current process is killed and collected; or killed but NOT collected
+(not started); or left as it is because the debugger had detached, or it is an attached one, or it has already ended -/
 theorem core_drop (s : St) :
     (core (drop s)).old = s.old ∧ (core (drop s)).child = s.proc.child ∧
     (((core (drop s)).alive = false ∧ (core (drop s)).reaped = s.proc.child) ∨
+     (s.status = .unload ∧ (core (drop s)).alive = false ∧ (core (drop s)).reaped = false) ∨
      ((core (drop s)).alive = s.proc.alive ∧ (core (drop s)).reaped = s.proc.reaped ∧
         (s.detached = true ∨ s.external = true ∨ s.status = .exited))) := by
   unfold drop
   split
-  · rename_i hd; exact ⟨rfl, rfl, Or.inr ⟨rfl, rfl, Or.inl hd⟩⟩
+  · rename_i hd; exact ⟨rfl, rfl, Or.inr (Or.inr ⟨rfl, rfl, Or.inl hd⟩)⟩
   · split
     · rename_i hx
       have e : core (releaseThreads (clearAll (disableAll s))) = core s := by
         rw [core_releaseThreads, core_clearAll, core_disableAll]
       exact ⟨congrArg Core.old e, congrArg Core.child e,
-        Or.inr ⟨congrArg Core.alive e, congrArg Core.reaped e, Or.inr (Or.inl hx)⟩⟩
+        Or.inr (Or.inr ⟨congrArg Core.alive e, congrArg Core.reaped e, Or.inr (Or.inl hx)⟩)⟩
     · split
-      · exact ⟨rfl, rfl, Or.inl ⟨rfl, rfl⟩⟩
+      · rename_i hs; exact ⟨rfl, rfl, Or.inr (Or.inl ⟨hs, rfl, rfl⟩)⟩
       · have e : core (clearAll (disableAll s)) = core s := by rw [core_clearAll, core_disableAll]
         exact ⟨congrArg Core.old e, congrArg Core.child e, Or.inl ⟨rfl, congrArg Core.child e⟩⟩
-      · rename_i hs; exact ⟨rfl, rfl, Or.inr ⟨rfl, rfl, Or.inr (Or.inr hs)⟩⟩
+      · rename_i hs; exact ⟨rfl, rfl, Or.inr (Or.inr ⟨rfl, rfl, Or.inr (Or.inr hs)⟩)⟩
 
-theorem noChildLeft_drop (s : St) (h : InvKill (core s)) : NoChildLeft (execDrop s) := by
+theorem noChildLeft_drop (s : St) (h : InvKill (core s)) (hu : s.status ≠ .unload) : NoChildLeft (execDrop s) := by
   have hd : s.dropped = false := h.here.2
   have hdet : s.detached = false := h.here.1
   unfold execDrop
@@ -333,10 +334,10 @@ theorem noChildLeft_drop (s : St) (h : InvKill (core s)) : NoChildLeft (execDrop
     have hq : q = (drop { s with log := [] }).proc := by simpa using hq
     subst hq
     rw [hchild] at hqc
-    cases hrest with
-    | inl hr => exact ⟨hr.1, hr.2.trans hqc⟩
-    | inr hr =>
-      obtain ⟨ha, hr, hc⟩ := hr
+    rcases hrest with hr | hr | hr
+    · exact ⟨hr.1, hr.2.trans hqc⟩
+    · exact absurd hr.1 hu
+    · obtain ⟨ha, hr, hc⟩ := hr
       rcases hc with hc | hc | hc
       · rw [hdet] at hc; cases hc
       · have := h.ext hc; simp only [core] at this; rw [this] at hqc; cases hqc
@@ -348,15 +349,16 @@ start / continue / restart, in any order and any number) on a launched program, 
 every process it ever launched — the current one and those of earlier generations — dead and collected,
 whatever state the history ended in (not started, stopped at a breakpoint or in a signal stop with any number
 of threads, exited). -/
-theorem life_drop_kills_launched (p : Prog) (ops : List Op) :
+theorem life_drop_kills_launched (p : Prog) (ops : List Op) (hu : (execAll (initLaunched p) ops).status ≠ .unload) :
     NoChildLeft (execDrop (execAll (initLaunched p) ops)) :=
-  noChildLeft_drop _ (invKill_execAll ops _ (invKill_initLaunched p))
+  noChildLeft_drop _ (invKill_execAll ops _ (invKill_initLaunched p)) hu
 
 /-- the same for a debugger that attached to a running process (which itself is not a child and is left alone,
 see `C11_detach_leaves_clean`): whatever it launched by later restarts is dead and collected -/
-theorem life_drop_kills_launched_after_attach (p : Prog) (k n : Nat) (ops : List Op) :
+theorem life_drop_kills_launched_after_attach (p : Prog) (k n : Nat) (ops : List Op)
+    (hu : (execAll (initAttached p k n) ops).status ≠ .unload) :
     NoChildLeft (execDrop (execAll (initAttached p k n) ops)) :=
-  noChildLeft_drop _ (invKill_execAll ops _ (invKill_initAttached p k n))
+  noChildLeft_drop _ (invKill_execAll ops _ (invKill_initAttached p k n)) hu
 
 
 /-! ## C11_exit_code -/
